@@ -42,9 +42,15 @@ CLAIMED = {
         ref="DESIGN.md section 5 C11"),
 }
 
+# checks that exist but are being re-synchronised with a /repo fix: not claimed until green again
+PENDING = {"C18"}
+
+
 def main():
     checks = []
     for pid in sorted(CLAIMED):
+        if pid in PENDING:
+            continue
         c = CLAIMED[pid]
         checks.append({
             "property_id": pid,
@@ -58,7 +64,7 @@ def main():
             "technique": c["technique"],
         })
     na = [{"property_id": p, "reason": "check not built yet in this round (planned: see DESIGN.md section 5); not claimed until its Lean model, theorems and correspondence run exist"}
-          for p in sorted(TITLES) if p not in CLAIMED]
+          for p in sorted(TITLES) if p not in CLAIMED or p in PENDING]
     m = {
         "version": 1,
         "setup_cmd": "python3 harness/setup.py",
@@ -72,7 +78,7 @@ def main():
         "engines": [{
             "name": "lean4-model+correspondence",
             "path": "lean/ (Lake library SmVerif), harness/ (builder, translator, streams, adapters, oracles)",
-            "serves_properties": sorted(CLAIMED),
+            "serves_properties": sorted(set(CLAIMED) - PENDING),
             "kind_free_text": "machine-checked proof in Lean 4 about a hand-written executable model; model regenerated in part by a translator and compared with the real code over generated operation histories through a line protocol",
         }],
         "checks": checks,
